@@ -87,7 +87,9 @@ def gen_case(rng, tier, idx):
             pass
     sch = schedules.rand_schedule(rng, n, bucket=(tf_s // step if tf_s else None))
     return {"kind": kind, "cfgs": cfgs, "rows": rows, "tf": tf, "fill": tfkind == "collapse_fill", "schedule": sch,
-            "family": fam, "cut": rng.randint(max(1, n // 3), n - 2), "factor": rng.choice([1.37, 0.61, 2.0])}
+            "family": fam, "cut": rng.randint(max(1, n // 3), n - 2), "factor": rng.choice([1.37, 0.61, 2.0]),
+            # Heikin-Ashi candles are a causal recurrence too: what is shown for a closed candle (converted OHLC included) must be final
+            "ha": tfkind != "collapse_fill" and rng.random() < 0.2}
 
 
 def make(case, rows, monitored=False):
@@ -97,6 +99,8 @@ def make(case, rows, monitored=False):
     kw = {}
     if case["tf"]:
         kw = {"timeframe": case["tf"], "timeframe_fill": case["fill"]}
+    if case.get("ha"):
+        kw["candlestick_type"] = "HA"
     if case["kind"] == "indicator":
         obj = configs.build(case["cfgs"][0], candles=candles, **kw)
     else:
@@ -136,7 +140,7 @@ def run_case(case):
     rows, sch = case["rows"], case["schedule"]
     names = [c["cls"] if c["cls"] != "Amorph" else f"Amorph:{c['analysis']}" for c in case["cfgs"]]
     tfk = "collapsing" if case["tf"] else "base"
-    stats = {"classes_seen": names, "kinds": {case["kind"]: 1}, "tfkinds": {tfk: 1}}
+    stats = {"classes_seen": names, "kinds": {case["kind"]: 1}, "tfkinds": {tfk: 1}, "candlestick": {"HA" if case.get("ha") else "none": 1}}
     viol = []
     tag = names[0] if case["kind"] == "indicator" else "Hexital"
 
